@@ -12,6 +12,7 @@ pub mod c10;
 pub mod c11;
 pub mod c11_sys;
 pub mod c12;
+pub mod c13;
 
 pub struct Property {
     pub id: &'static str,
@@ -29,5 +30,6 @@ pub fn registry() -> Vec<Property> {
         Property { id: "C10", run: c10::run, subs: c10::subs },
         Property { id: "C11", run: c11::run, subs: c11::subs },
         Property { id: "C12", run: c12::run, subs: c12::subs },
+        Property { id: "C13", run: c13::run, subs: c13::subs },
     ]
 }
